@@ -32,7 +32,8 @@ Bounds(S) == DOMAIN S \cap BoundKeys
 
 Consistent(S) ==
     /\ Bounds(S) \in BoundSets
-    /\ (Has(S, "def") => Bounds(S) \in DefBoundSets /\ ~Has(S, "mult"))
+    /\ (Has(S, "def") => Bounds(S) \in DefBoundSets /\ ~Has(S, "mult") /\ ~Has(S, "split"))
+    /\ (Has(S, "split") => ~Has(S, "mult"))
     /\ (Has(S, "min") /\ Has(S, "max") => Le(S.min, S.max))
 
 Ext(S, k, v) == (k :> v) @@ S
@@ -45,10 +46,14 @@ AddMult == ~Has(s, "mult") /\ s' = Ext(s, "mult", 2)
 AddDef  == \E p \in Pts : ~Has(s, "def") /\ s' = Ext(s, "def", p)
 (* the nullable spelling {"type": ["integer", "null"]}: same selection, same default validation
    (explored for the schemas that carry a default) *)
+(* the same schema presented as allOf[{type, format}, {type, bounds}]: the conjunction admits the
+   same integers, so the same contract applies to what the merge hands to the selection *)
+AddSplit == /\ Has(s, "fmt") /\ Bounds(s) # {} /\ ~Has(s, "def") /\ ~Has(s, "mult") /\ ~Has(s, "split")
+            /\ s' = Ext(s, "split", TRUE)
 AddNul  == Has(s, "def") /\ ~Has(s, "nul") /\ s' = Ext(s, "nul", TRUE)
 
 Next == /\ (AddFmt \/ AddBound("min") \/ AddBound("max") \/ AddBound("emin")
-              \/ AddBound("emax") \/ AddMult \/ AddDef \/ AddNul)
+              \/ AddBound("emax") \/ AddMult \/ AddDef \/ AddNul \/ AddSplit)
         /\ Consistent(s')
 
 Spec == Init /\ [][Next]_s
